@@ -15,6 +15,7 @@ import (
 	"verifharness/aspgen"
 	"verifharness/lib"
 
+	"github.com/thought-machine/please/src/parse/asp"
 	gologging "gopkg.in/op/go-logging.v1"
 )
 
@@ -361,7 +362,68 @@ func main() {
 			c.Case(lib.App("CAsp", "false", coqDefs, lib.List([]string{aspgen.CoqProg(pb)}), lib.List([]string{coqOutcome(alone)})),
 				map[string]any{"order": "b", "files": srcs, "b": alone.Final, "errs": []string{alone.Err}}, "b:"+key, false)
 		}
+		preloadStream(c)
 	})
+}
+
+// tagPreload: the public globals of the files loaded through Parser.LoadBuiltins (the built-in rules and the files of
+// `[parse] preloadbuilddefs`) reach the root scope UNFROZEN: interpreter.LoadBuiltins does `defer i.scope.SetAll(s.Freeze(), true)`,
+// whose argument is evaluated when the defer statement runs, i.e. on the still empty scope; Freeze returns the locals map itself,
+// so SetAll later copies the populated, never frozen values. Every package sees the root scope.
+const tagPreload = "loadbuiltins-globals-not-frozen"
+
+// preloadStream: a generated build_defs file is loaded the way `[parse] preloadbuilddefs` loads one (verif hook
+// VerifC17EvalPreloaded = the same Parser.LoadBuiltins call); package a attacks one of its globals, or the built-in `log`
+// dict; package b reads all of them. Oracle: b after a == b alone. (Outside the Coq model: oracle only.)
+func preloadStream(c *lib.Ctx) {
+	c.Note("%s", "preload stream: a generated build_defs file (list, dict with a list member, function returning the list) loaded through Parser.LoadBuiltins; "+
+		"package a writes to one of its globals or to the built-in `log` dict directly, by alias or through a member; package b reads them all; b alone vs b after a (oracle only, outside the Coq model)")
+	n := c.Scale(8, 80)
+	for i := 0; i < n; i++ {
+		r := c.Rng.Fork()
+		v1, v2, v3, w := r.Range(1, 9), r.Range(1, 9), r.Range(1, 9), r.Range(10, 99)
+		pre := fmt.Sprintf("PRE_LIST = [%d, %d, %d]\nPRE_DICT = {\"k\": [%d, %d]}\ndef pre_get():\n    return PRE_LIST\n", v1, v2, v3, v2, v3)
+		attacks := []string{
+			fmt.Sprintf("PRE_LIST[0] = %d\n", w),
+			fmt.Sprintf("PRE_DICT[\"z\"] = %d\n", w),
+			fmt.Sprintf("a_x = PRE_LIST\na_x[%d] = %d\n", r.Range(0, 2), w),
+			fmt.Sprintf("a_k = PRE_DICT[\"k\"]\na_k[0] = %d\n", w),
+			fmt.Sprintf("a_g = pre_get()\na_g[1] = %d\n", w),
+			fmt.Sprintf("log[\"zzz\"] = %d\n", w),
+		}
+		k := i % len(attacks)
+		if i >= len(attacks) {
+			k = r.Intn(len(attacks))
+		}
+		a := attacks[k] + "a_done = 1\n"
+		b := "b_l = PRE_LIST\nb_d = PRE_DICT\nb_g = pre_get()\nb_log = sorted(log.keys())\n"
+		run := func(builds ...asp.VerifC16File) map[string]asp.VerifC16Result {
+			out, err := asp.VerifC17EvalPreloaded([]asp.VerifC16File{{Name: "pre.build_defs", Src: pre, Defs: true}}, builds, false)
+			if err != nil {
+				panic(err)
+			}
+			m := map[string]asp.VerifC16Result{}
+			for _, o := range out {
+				m[o.Name] = o
+			}
+			return m
+		}
+		alone := run(asp.VerifC16File{Name: "b", Src: b})["b"]
+		after := run(asp.VerifC16File{Name: "a", Src: a}, asp.VerifC16File{Name: "b", Src: b})
+		c.Oracle()
+		c.Hist("preload_attack", fmt.Sprint(k))
+		if alone.Err != "" || after["b"].Err != "" {
+			c.Fail("unexplained-interference", "preload stream: the observing package raised: "+alone.Err+after["b"].Err, map[string]any{"pre": pre, "a": a, "b": b})
+			continue
+		}
+		if string(alone.After) != string(after["b"].After) {
+			c.Fail(tagPreload, fmt.Sprintf("package b parsed after package a vs alone differs because of %q in package a (a raised: %q)", firstLine(a), after["a"].Err),
+				map[string]any{"pre": pre, "a": a, "b": b, "b_alone": string(alone.After), "b_after_a": string(after["b"].After)})
+			c.Hist("outcome", "preload-b-depends-on-a")
+		} else {
+			c.Hist("outcome", "preload-b-independent")
+		}
+	}
 }
 
 func firstLine(s string) string {
